@@ -90,6 +90,9 @@ def gen_world(seed, wi):
                     a = rng.choice(withv)
                     smp["genes"][g["name"]] = [{"type": "normal", "allele": a}, {"type": "normal", "allele": a},
                                                {"type": "extra", "allele": rng.choice([n for n in normal if n != a])}]
+    if exome and wi % 8 == 7:
+        # targeted data: deep gene, thin off-target cover of the neutral region (an average of just over 2)
+        smp["neutral_thin"] = rng.choice([2.03, 2.06, 2.1])
     if exome:
         # a structure other than two plain copies: the exome route must not notice, and neither may the replay
         g0 = world["genes"][0]
